@@ -128,6 +128,21 @@ Theorem C11_crash_consistent : forall (fs : fsys) (h : list (list saveop * list 
 Proof. exact crash_consistent. Qed.
 Print Assumptions C11_crash_consistent.
 
+(* The same for every writer of a state file that is read back: colvarmodule::write_restart_file
+   (W_restart), colvarbias::write_state_prefix = `cv bias <name> save` (W_bias: the stream is closed on every
+   path, errors are accumulated) and colvarbias_meta::write_replica_state_file (W_replica: no .old backup).
+   (W_bias wrote in place and ignored the close result, W_replica renamed an incomplete temporary file over
+   the complete one: two fix: commits of round 3.) *)
+Theorem C11_crash_consistent_all_writers : forall (w : writer) (fs : fsys) (h : list (list saveop * list outcome)),
+  curok fs = true ->
+  let '(fs', out) := history_w w fs h in
+  (safe fs = true \/ existsb (fun o => completed (fst o)) out = true -> safe fs' = true) /\ curok fs' = true.
+Proof.
+  intros w fs h Hc. pose proof (crash_consistent_w w fs h Hc) as H1. pose proof (current_never_partial_w w fs h Hc) as H2.
+  destruct (history_w w fs h) as [fs' out]. split; [exact H1 | exact H2].
+Qed.
+Print Assumptions C11_crash_consistent_all_writers.
+
 (* the name of the state file itself never holds an incomplete file, whatever happens *)
 Theorem C11_current_never_partial : forall (fs : fsys) (h : list (list saveop * list outcome)),
   curok fs = true -> curok (fst (history fs h)) = true.
@@ -141,7 +156,7 @@ Theorem C11_crash_consistent_one_process : forall (fs : fsys) (plan : list outco
   safe fs = true \/ completed rs = true -> safe (m_fs m') = true.
 Proof.
   intros fs plan l Hc _. destruct (session (start fs plan) l) as [m' rs] eqn:E.
-  exact (proj2 (session_any l (start fs plan) (or_introl eq_refl) Hc m' rs E)).
+  exact (proj2 (session_any W_restart l (start fs plan) (or_introl eq_refl) Hc m' rs E)).
 Qed.
 Print Assumptions C11_crash_consistent_one_process.
 
@@ -153,7 +168,7 @@ Theorem C11_error_tolerant : forall (fs : fsys) (plan : list outcome) (l : list 
   safe fs = true \/ completed rs = true -> safe (m_fs m') = true.
 Proof.
   intros fs plan l Hc. destruct (session (start fs plan) l) as [m' rs] eqn:E.
-  exact (proj2 (session_any l (start fs plan) (or_introl eq_refl) Hc m' rs E)).
+  exact (proj2 (session_any W_restart l (start fs plan) (or_introl eq_refl) Hc m' rs E)).
 Qed.
 Print Assumptions C11_error_tolerant.
 
@@ -378,3 +393,11 @@ Proof.
   - vm_compute. eexists. reflexivity.
   - vm_compute. reflexivity.
 Qed.
+
+(* the bias-state writer closes its stream after a failed write and reports the error; the next save works *)
+Example C11_example_bias_writer :
+  let '(m, rs) := session_w W_bias (start empty_fs [OOk; OOk; OOk; OOk; OOk; OOk; OOk;   OOk; OOk; OOk; OErr])
+                            [mkS 1 [50] 50; mkS 2 [50] 50; mkS 3 [50] 50] in
+  rs = [Done true; Done false; Done true] /\ m_reg m = NotOpen /\
+  m_fs m = mkFS (Some (mkF 3 100 100)) (Some (mkF 1 100 100)) None.
+Proof. vm_compute. repeat split; reflexivity. Qed.
